@@ -142,6 +142,13 @@ class UnknownV(AV):
         self.note = note
 
 
+class LocV(AV):
+    """self._loc(<token variable>): remembers which token and when (in consuming steps) it was evaluated"""
+
+    def __init__(self, tid, ticks, text):
+        self.tid, self.ticks, self.text = tid, ticks, text
+
+
 class ExcV(AV):
     def __init__(self, ctor, pos_text, tid):
         self.ctor, self.pos_text, self.tid = ctor, pos_text, tid
@@ -170,7 +177,8 @@ def av_key(v, st):
 
 
 class State:
-    def __init__(self, env=None, la=(None, None), toks=None, consumed=0, first=None, last=None):
+    def __init__(self, env=None, la=(None, None), toks=None, consumed=0, first=None, last=None, ticks=0):
+        self.ticks = ticks                # number of consuming steps so far (tokens and callee calls); not part of the state key
         self.env = dict(env or {})
         self.la = tuple(la)
         self.toks = dict(toks or {})       # token id -> frozenset of atoms
@@ -179,7 +187,7 @@ class State:
         self.last = last                  # description of what was consumed last: ('t', tid) | ('n', name)
 
     def copy(self):
-        return State(self.env, self.la, self.toks, self.consumed, self.first, self.last)
+        return State(self.env, self.la, self.toks, self.consumed, self.first, self.last, self.ticks)
 
     def slot_of(self, tid):
         for i, t in enumerate(self.la):
@@ -314,6 +322,7 @@ class Extractor:
         node = self.aut.edge(node, ("t", atoms, tid))
         st.la = (st.la[1], None)
         st.consumed = 1
+        st.ticks += 1
         st.last = ("t", tid)
         return node, tid
 
@@ -731,16 +740,18 @@ class Extractor:
             for s2, n2, args, kw in self.ev_args(e, st, node):
                 if args:
                     raise Unsupported("positional arguments to _ast.%s" % f.attr)
-                rec = {"cls": f.attr, "line": e.lineno, "kwargs": list(kw), "order": [k.arg for k in e.keywords],
-                       "consumed_before": {k: c for k, (v, c, _n) in kw.items()}, "kinds": {k: type(v).__name__ for k, (v, c, _n) in kw.items()},
-                       "loc": ast.unparse([k.value for k in e.keywords if k.arg == "loc"][0]) if any(k.arg == "loc" for k in e.keywords) else None,
-                       "values": {k: (v.cls if isinstance(v, NodeV) else v.state if isinstance(v, ListV) else None) for k, (v, c, _n) in kw.items()},
-                       "first": s2.first, "consumed": s2.consumed}
+                loc = kw.get("loc", (None, None, None))[0]
+                rec = {"cls": f.attr, "line": e.lineno, "kwargs": [k.arg for k in e.keywords],
+                       "loc_text": loc.text if isinstance(loc, LocV) else (ast.unparse([k.value for k in e.keywords if k.arg == "loc"][0]) if "loc" in kw else None),
+                       "loc_tid": loc.tid if isinstance(loc, LocV) else None, "loc_ticks": loc.ticks if isinstance(loc, LocV) else None,
+                       "first": s2.first, "ticks": s2.ticks, "consumed": s2.consumed,
+                       "first_atoms": s2.toks.get(s2.first) if s2.first else None}
                 self.aut.calls.append(rec)
                 out.append((s2, n2, NodeV(f.attr, rec)))
             return out
         if isinstance(f, ast.Attribute) and f.attr == "_loc":
-            return [(s2, n2, UnknownV("loc")) for s2, n2, _a, _k in self.ev_args(e, st, node)]
+            return [(s2, n2, LocV(a[0].tid if a and isinstance(a[0], TokV) else None, s2.ticks, ast.unparse(e)))
+                    for s2, n2, a, _k in self.ev_args(e, st, node)]
         # methods of the parser
         if isinstance(f, ast.Attribute) and isinstance(f.value, ast.Name) and f.value.id == "self":
             out = []
@@ -765,8 +776,6 @@ class Extractor:
                     s2.env[f.value.id] = ListV("nonempty")
                     out.append((s2, n2, ConstV(None)))
             return out
-        if isinstance(f, ast.Attribute) and f.attr == "_loc":
-            return [(s2, n2, UnknownV("loc")) for s2, n2, _a, _k in self.ev_args(e, st, node)]
         raise Unsupported("call %s at line %d" % (text, e.lineno))
 
     def method(self, name, args, st, node, e, hint):
@@ -851,6 +860,7 @@ class Extractor:
             la1 = st.toks.get(st.la[0]) if st.la[0] else None
             self.aut.callsites.append({"edge": len(self.aut.edges), "callee": name, "args": tuple(vals), "la1": la1, "line": line})
             st.la = (None, None)
+            st.ticks += 1
             st.last = ("n", name)
             if ret == "list" and hint in self.tested:
                 out = []
